@@ -305,53 +305,7 @@ func runC12(p *core.Prog, r *core.Report, tier string) {
 	// ExecutionConfigurator interface is the address of an object (never a pointer variable that a
 	// decoder may have left nil — a typed nil passes every `== nil` test of the service and then
 	// panics in the first lookup).
-	nH := 0
-	for _, f := range append(p.FuncsIn("services/blockrelay"), fns...) {
-		res := f.Signature.Results()
-		if res.Len() == 0 || !strings.HasSuffix(typeName(res.At(0).Type()), "blockrelay.ExecutionConfigurator") {
-			continue
-		}
-		for ri, ret := range core.ReturnsOf(f) {
-			for li, lf := range core.PhiLeaves(ret.Results[0], ret) {
-				mi, ok := core.Unspill(lf.V).(*ssa.MakeInterface)
-				if !ok {
-					continue // interface nil (handled by d/e) or another function's result (checked there)
-				}
-				nH++
-				construct := fmt.Sprintf("%s|return#%d.%d|non-nil-object", core.FnKey(f), ri+1, li+1)
-				switch x := mi.X.(type) {
-				case *ssa.Alloc, *ssa.FieldAddr, *ssa.IndexAddr:
-					r.Hold("C12.h", construct, p.Pos(ret.Pos()), "the configurator is the address of an object")
-				default:
-					// a pointer value: acceptable only behind a nil test of that value
-					w := core.UnguardedLeaf(ds, f, nil, lf, func(c core.Cond) int {
-						if c.Op == "" || c.X == nil || c.Y == nil {
-							return -1
-						}
-						var o *core.VD
-						if c.Y.Kind == "const" && c.Y.Name == "nil" {
-							o = c.X
-						} else if c.X.Kind == "const" && c.X.Name == "nil" {
-							o = c.Y
-						} else {
-							return -1
-						}
-						if o.Val != ssa.Value(x) && o.String() != ds.D(x).String() {
-							return -1
-						}
-						for s := 0; s < 2; s++ {
-							if c.RelOnEdge(s) == "!=" {
-								return s
-							}
-						}
-						return -1
-					})
-					r.Check(w == nil, "C12.h", construct, p.Pos(ret.Pos()), "the pointer wrapped into the configurator is tested non-nil",
-						fmt.Sprintf("a pointer value (%s) is wrapped into the ExecutionConfigurator interface and returned with a nil error without a nil test: a decoder that leaves it nil (a `null` document) produces a typed-nil configurator that passes the service's nil checks and replaces the current configuration", ds.D(x)), p.WitnessText(w)...)
-				}
-			}
-		}
-	}
+	nH := checkConfiguratorObjects(p, r, ds, "C12.h", append(p.FuncsIn("services/blockrelay"), fns...))
 	r.Floor("C12.h configurator constructions", nH, 2)
 
 	// (i) no entry of the decoded configuration can crash a lookup: shared with C16.d for the configuration packages
@@ -463,4 +417,58 @@ func isDoneOrTimer(d *core.VD) bool {
 		}
 		return false
 	})
+}
+
+// checkConfiguratorObjects: every value wrapped into the ExecutionConfigurator interface and returned is the
+// address of an object, or a pointer tested non-nil (a typed nil passes the callers' nil checks and panics in
+// the first lookup). Returns the number of constructions examined.
+func checkConfiguratorObjects(p *core.Prog, r *core.Report, ds *core.Describer, rule string, fns []*ssa.Function) int {
+	nH := 0
+	for _, f := range fns {
+		res := f.Signature.Results()
+		if res.Len() == 0 || !strings.HasSuffix(typeName(res.At(0).Type()), "blockrelay.ExecutionConfigurator") {
+			continue
+		}
+		for ri, ret := range core.ReturnsOf(f) {
+			for li, lf := range core.PhiLeaves(ret.Results[0], ret) {
+				mi, ok := core.Unspill(lf.V).(*ssa.MakeInterface)
+				if !ok {
+					continue // interface nil (handled by d/e) or another function's result (checked there)
+				}
+				nH++
+				construct := fmt.Sprintf("%s|return#%d.%d|non-nil-object", core.FnKey(f), ri+1, li+1)
+				switch x := mi.X.(type) {
+				case *ssa.Alloc, *ssa.FieldAddr, *ssa.IndexAddr:
+					r.Hold(rule, construct, p.Pos(ret.Pos()), "the configurator is the address of an object")
+				default:
+					// a pointer value: acceptable only behind a nil test of that value
+					w := core.UnguardedLeaf(ds, f, nil, lf, func(c core.Cond) int {
+						if c.Op == "" || c.X == nil || c.Y == nil {
+							return -1
+						}
+						var o *core.VD
+						if c.Y.Kind == "const" && c.Y.Name == "nil" {
+							o = c.X
+						} else if c.X.Kind == "const" && c.X.Name == "nil" {
+							o = c.Y
+						} else {
+							return -1
+						}
+						if o.Val != ssa.Value(x) && o.String() != ds.D(x).String() {
+							return -1
+						}
+						for s := 0; s < 2; s++ {
+							if c.RelOnEdge(s) == "!=" {
+								return s
+							}
+						}
+						return -1
+					})
+					r.Check(w == nil, rule, construct, p.Pos(ret.Pos()), "the pointer wrapped into the configurator is tested non-nil",
+						fmt.Sprintf("a pointer value (%s) is wrapped into the ExecutionConfigurator interface and returned with a nil error without a nil test: a decoder that leaves it nil (a `null` document) produces a typed-nil configurator that passes the service's nil checks and replaces the current configuration", ds.D(x)), p.WitnessText(w)...)
+				}
+			}
+		}
+	}
+	return nH
 }
